@@ -48,6 +48,33 @@ fn forest() -> Vec<Op> {
     ]
 }
 
+/// Additional set-up for the target "x": a CA of this instance whose parent
+/// "rp" lives in a SECOND krill instance (itself a child of this
+/// instance's p), so that every provisioning message of x's roll crosses
+/// the in-process transport; with `migrated` x has also moved to the second
+/// instance's publication server, so that its publication messages do too.
+fn remote_setup(migrated: bool) -> Vec<Op> {
+    let mut v = vec![
+        Op::RemoteChain { via: "p".into(), remote: "rp".into(), ca: "x".into(),
+            asn: "AS65007-AS65008".into(), v4: "10.7.0.0/16".into(),
+            v6: "".into() },
+        Op::Quiesce, Op::SyncAll, Op::Quiesce,
+        roa("x", &["10.7.0.0/24 => 65007", "10.7.1.0/24-25 => 65008"], &[]),
+        Op::AspaUpdate { ca: "x".into(),
+            add: vec!["65007 => 65008".into()], remove: vec![] },
+        Op::Quiesce,
+    ];
+    if migrated {
+        v.extend([
+            Op::RepoMigrate { ca: "x".into() }, Op::Quiesce,
+            Op::SyncAll, Op::Quiesce,
+            Op::RollActivate { ca: "x".into() }, Op::Quiesce,
+            Op::SyncAll, Op::Quiesce, Op::SyncAll, Op::Quiesce,
+        ]);
+    }
+    v
+}
+
 /// The foreign operation kinds inserted into the roll of `target`.
 fn foreign(kind: usize, target: &str) -> Vec<Op> {
     let t = target.to_string();
@@ -239,11 +266,19 @@ impl Monitor for C04Monitor {
         // when no publication is outstanding the payloads must be exact:
         // nothing lost, nothing duplicated by the roll step just taken
         let now = w.queue_now_ms();
-        let publication_due = w.pending().iter().any(|p| {
-            p.0 <= now + 1500 && (p.1.starts_with("sync_repo")
+        // with a server reached over the (lossy) transport in play, a
+        // failed exchange is retried by krill after five minutes: until
+        // then that CA's publication or request is outstanding, and so is
+        // whatever the other instance has still to do
+        let horizon: u128 = if w.remote.is_some() { 400_000 } else { 1500 };
+        let due = |p: &(u128, String, String)| {
+            p.0 <= now + horizon && (p.1.starts_with("sync_repo")
                 || p.1.starts_with("update_rrdp")
                 || p.1.starts_with("sync_"))
-        });
+        };
+        let publication_due = w.pending().iter().any(due)
+            || w.remote.as_ref().map(|r| r.pending().iter().any(due))
+                .unwrap_or(false);
         if !publication_due && !oracle::has_open_requests(w) {
             let (i, _) = oracle::c01_check(w, &obs);
             r.count("exactness_checks", 1);
@@ -305,10 +340,7 @@ impl Monitor for C04Monitor {
                     if ca == "ta" { continue }
                     let roles = key_roles(w, &ca);
                     for (rcn, (parent, state)) in &roles.classes {
-                        let parent_knows = parent == "ta"
-                            || w.krill.ca_manager().ca_show_child(
-                                &kvh::world::h(parent),
-                                &kvh::world::h(&ca).convert()).is_ok();
+                        let parent_knows = oracle::parent_knows(w, parent, &ca);
                         if parent_knows && *state != "active" {
                             issues.push((
                                 format!("roll-not-finished:{state}"),
@@ -326,10 +358,8 @@ impl Monitor for C04Monitor {
                 let (i, _) = oracle::c01_check(w, &obs);
                 issues.extend(i.into_iter().map(|(s, d)| (format!("at-end:{s}"), d)));
                 // the old key's certificate, manifest and CRL are gone
-                let owned: BTreeSet<String> = w.ca_handles().iter()
-                    .flat_map(|c| { let r = key_roles(w, c);
-                        r.active.into_iter().chain(r.new).chain(r.old)
-                            .chain(r.pending).collect::<Vec<_>>() }).collect();
+                let owned: BTreeSet<String> = oracle::key_owners(w)
+                    .into_keys().collect();
                 for p in &obs.view.cas {
                     for (uri, ski, _) in &p.child_certs {
                         if !owned.contains(ski) {
@@ -359,6 +389,9 @@ fn run_one(
     let aggregated = (idx + args.seed) % 2 == 1;
     if aggregated { cfg.aggregate = (1, 1) }
     let mut script = forest();
+    if target == "x" {
+        script.extend(remote_setup(label.contains("|migrated")));
+    }
     let n_setup = script.len();
     script.extend(roll_script(target, &ins));
     let mut m = C04Monitor::default();
@@ -399,6 +432,19 @@ fn main() {
             }
         }
     }
+    // the roll of a CA under a REMOTE parent with the reply to one
+    // protocol message lost: the server acted, the sender saw a failed
+    // exchange and has to find out at its next synchronisation
+    for variant in ["direct", "migrated"] {
+        cases.push(("x".into(), vec![], format!("x|{variant}|plain")));
+        for gap in 0..=4usize {
+            for nth in 0..3u64 {
+                cases.push(("x".into(),
+                    vec![(gap, vec![Op::LoseReply { nth }])],
+                    format!("x|{variant}|lose{nth}@g{gap}")));
+            }
+        }
+    }
     let single = cases.len();
     if args.thorough() {
         let mut rng = Rng::new(args.seed);
@@ -416,7 +462,9 @@ fn main() {
     // takes every nshards-th case until its budget is used
     let is_core = |label: &str| CORE_KINDS.iter().any(|k| {
         label.contains(&format!("|k{k}@"))
-    }) || label.ends_with("|plain");
+    }) || label.ends_with("|plain")
+        || (label.starts_with("x|") && (label.ends_with("lose0@g1")
+            || label.ends_with("lose0@g3") || label.ends_with("lose1@g3")));
     let core: Vec<usize> = (0..single)
         .filter(|i| is_core(&cases[*i].2)).collect();
     let mut rest: Vec<usize> = (0..single)
@@ -426,7 +474,11 @@ fn main() {
     let mut order: Vec<usize> = core;
     order.extend(rest);
     order.extend(single..cases.len());
-    r.note("core_cases", json!(order.len().min(42)));
+    r.note("core_cases", json!(order.len().min(50)));
+    // development aid: `--only <label prefix>` restricts the case list
+    if let Some(pfx) = args.extra.get("only") {
+        order.retain(|i| cases[*i].2.starts_with(pfx.as_str()));
+    }
     let mut done = 0u64;
     for (i, ci) in order.iter().enumerate() {
         if (i as u64) % args.nshards != args.shard { continue }
